@@ -33,6 +33,8 @@ pub struct Profile {
     pub primes: bool,
     /// functions with an enum result type (non-constructors)
     pub funcs_into_enums: bool,
+    /// bound on the product of block counts of the branch/match statements of one rule
+    pub max_fanout: usize,
 }
 
 impl Profile {
@@ -51,13 +53,14 @@ impl Profile {
             matches: true,
             primes: false,
             funcs_into_enums: true,
+            max_fanout: 6,
         }
     }
     pub fn stratified() -> Profile {
         Profile { name: "stratified".into(), bang: Bang::Stratified, ..Profile::surjective() }
     }
     pub fn free() -> Profile {
-        Profile { name: "free".into(), bang: Bang::Free, ..Profile::surjective() }
+        Profile { name: "free".into(), bang: Bang::Free, primes: true, ..Profile::surjective() }
     }
     pub fn with_enums() -> Profile {
         Profile { name: "with_enums".into(), max_enums: 2, bang: Bang::Stratified, ..Profile::surjective() }
@@ -70,13 +73,14 @@ impl Profile {
             max_preds: 5,
             max_funcs: 4,
             max_arity: 9,
-            max_rules: 6,
-            max_stmts: 8,
+            max_rules: 4,
+            max_stmts: 6,
             bang: Bang::Free,
             branches: true,
             matches: true,
-            primes: false,
+            primes: true,
             funcs_into_enums: true,
+            max_fanout: 4,
         }
     }
     pub fn by_name(n: &str) -> Option<Profile> {
@@ -129,9 +133,6 @@ impl<'a> Tape<'a> {
         w.len() - 1
     }
 }
-
-/// bound on the product of block counts per rule (see RuleGen::fanout)
-const MAX_FANOUT: usize = 8;
 
 const TYPE_NAMES: &[&str] = &["A", "B", "C", "D", "El", "Node", "Obj", "Sort"];
 const ENUM_NAMES: &[&str] = &["E", "Shape", "Tree", "Opt"];
@@ -539,8 +540,8 @@ impl<'a, 'b> RuleGen<'a, 'b> {
             let w = [
                 if then_bias >= 30 { 2 } else { 6 },
                 then_bias,
-                if self.prof.branches && depth < 2 && self.fanout * 2 <= MAX_FANOUT { 1 } else { 0 },
-                if self.prof.matches && depth < 2 && !enum_vars.is_empty() && self.fanout * 2 <= MAX_FANOUT { 2 } else { 0 },
+                if self.prof.branches && depth < 2 && self.fanout * 2 <= self.prof.max_fanout { 1 } else { 0 },
+                if self.prof.matches && depth < 2 && !enum_vars.is_empty() && self.fanout * 2 <= self.prof.max_fanout { 2 } else { 0 },
             ];
             match self.t.weighted(&w) {
                 0 => {
@@ -557,7 +558,7 @@ impl<'a, 'b> RuleGen<'a, 'b> {
                     }
                 }
                 2 => {
-                    let nb = 1 + self.t.pick(3.min(MAX_FANOUT / self.fanout));
+                    let nb = 1 + self.t.pick(3.min(self.prof.max_fanout / self.fanout));
                     self.fanout *= nb;
                     let mut blocks = Vec::new();
                     for _ in 0..nb {
@@ -568,7 +569,7 @@ impl<'a, 'b> RuleGen<'a, 'b> {
                 }
                 _ => {
                     // only enums whose constructor count fits the fan-out budget
-                    let fit: Vec<usize> = enum_vars.iter().copied().filter(|&v| self.fanout * self.p.ctors(self.vars[v].ty).len().max(1) <= MAX_FANOUT).collect();
+                    let fit: Vec<usize> = enum_vars.iter().copied().filter(|&v| self.fanout * self.p.ctors(self.vars[v].ty).len().max(1) <= self.prof.max_fanout).collect();
                     if fit.is_empty() {
                         if let Some(a) = self.if_atom(ctx) {
                             out.push(Stmt::If(a));
